@@ -111,7 +111,7 @@ func init() {
 			func() {
 				defer func() { recover() }() // uncomparable dynamic values
 				for _, e := range poolStore[p] {
-					if e == a[1] {
+					if refs := 0; sameObject(e, a[1], &refs) && refs > 0 {
 						key := curFn() + " <-> sync.Pool (object put twice)"
 						if !raceSeen[key] {
 							raceSeen[key] = true
@@ -1713,4 +1713,58 @@ func jsonBox(j interface{}) value {
 		return iface{t: types.NewMap(types.Typ[types.String], jsonAnyType), v: m}
 	}
 	panic(inconclusive{fmt.Sprintf("encoding/json.Unmarshal: %T into interface{}", j)})
+}
+
+
+// sameObject: do two pooled values stand for the same resources?  Pointers, maps and slices must be
+// identical, structs (a pool of struct values that carry maps, as csvq's scope pools) field by field;
+// refs counts the reference components compared (a value without any is no shared object).
+func sameObject(x, y value, refs *int) bool {
+	switch a := x.(type) {
+	case iface:
+		b, ok := y.(iface)
+		if !ok || a.t == nil || b.t == nil || !types.Identical(a.t, b.t) {
+			return false
+		}
+		return sameObject(a.v, b.v, refs)
+	case structure:
+		b, ok := y.(structure)
+		if !ok || len(a) != len(b) {
+			return false
+		}
+		for i := range a {
+			if !sameObject(a[i], b[i], refs) {
+				return false
+			}
+		}
+		return true
+	case *value:
+		b, ok := y.(*value)
+		if ok && a == b && a != nil {
+			*refs++
+		}
+		return ok && a == b
+	case *omap:
+		b, ok := y.(*omap)
+		if ok && a == b && a != nil {
+			*refs++
+		}
+		return ok && a == b
+	case []value:
+		b, ok := y.([]value)
+		if !ok || len(a) != len(b) || cap(a) != cap(b) {
+			return false
+		}
+		if cap(a) == 0 {
+			return true
+		}
+		if &a[:1][0] == &b[:1][0] {
+			*refs++
+			return true
+		}
+		return false
+	case bool, int, int8, int16, int32, int64, uint, uint8, uint16, uint32, uint64, uintptr, float32, float64, string:
+		return x == y
+	}
+	return false
 }
